@@ -120,6 +120,9 @@ int aws_xml_parse(struct aws_allocator *allocator, const struct aws_xml_parser_o
             goto clean_up;
         }
 
+        aws_byte_cursor_advance(&parser.doc, start - parser.doc.ptr);
+
+        /* look for the end of this declaration after its '<', so that there is always a byte to look ahead at */
         const uint8_t *location = memchr(parser.doc.ptr, '>', parser.doc.len);
         if (!location) {
             AWS_LOGF_ERROR(AWS_LS_COMMON_XML_PARSER, "XML document is invalid.");
@@ -127,7 +130,6 @@ int aws_xml_parse(struct aws_allocator *allocator, const struct aws_xml_parser_o
             goto clean_up;
         }
 
-        aws_byte_cursor_advance(&parser.doc, start - parser.doc.ptr);
         /* if these are preamble statements, burn them. otherwise don't seek at all
          * and assume it's just the doc with no preamble statements. */
         if (*(parser.doc.ptr + 1) == '?' || *(parser.doc.ptr + 1) == '!') {
@@ -286,7 +288,9 @@ int aws_xml_node_traverse(
             goto error;
         }
 
-        const uint8_t *end_location = memchr(parser->doc.ptr, '>', parser->doc.len);
+        /* the declaration ends at the first '>' after its '<' (text may contain '>') */
+        const uint8_t *end_location =
+            memchr(next_location, '>', parser->doc.len - (size_t)(next_location - parser->doc.ptr));
 
         if (!end_location) {
             AWS_LOGF_ERROR(AWS_LS_COMMON_XML_PARSER, "XML document is invalid.");
